@@ -70,7 +70,15 @@ impl CleanMarkerStore {
             .write()
             .map_err(|_| std::io::Error::new(std::io::ErrorKind::Other, "store lock poisoned"))?;
         for (topic, record) in updates {
-            guard.insert(topic.clone(), record.clone());
+            // never let an older snapshot (e.g. one taken by the background persister before a
+            // later change was flushed) overwrite a newer record
+            let stale = guard
+                .get(topic)
+                .map(|existing| existing.generation > record.generation)
+                .unwrap_or(false);
+            if !stale {
+                guard.insert(topic.clone(), record.clone());
+            }
         }
         Self::persist_map(&self.path, &guard)
     }
@@ -241,6 +249,18 @@ impl TopicCleanTracker {
             }
         }
         self.store.persist_updates(&updates)
+    }
+
+    /// Synchronously write the current state of every topic to the marker file.
+    pub(super) fn flush(&self) -> std::io::Result<()> {
+        let snapshot = match self.states.read() {
+            Ok(guard) => guard
+                .iter()
+                .map(|(topic, state)| (topic.clone(), state.snapshot()))
+                .collect::<Vec<_>>(),
+            Err(_) => return Ok(()),
+        };
+        self.store.persist_updates(&snapshot)
     }
 
     #[cfg(test)]
